@@ -187,7 +187,7 @@ def sp_eqcontent(eng, node, st):
     return vbool(z3.And(*[x == y for x, y in zip(xs, ys)]))
 
 
-def sp_len(eng, node, st):
+def sp_len_unused(eng, node, st):
     v = eng.ev(node.args[0], st)
     from . import models
     return models.m_len(eng, st, [v], {}, node)
@@ -231,7 +231,18 @@ def sp_let(eng, node, st):
             st.env[n] = saved
 
 
-SPEC_BUILTINS = dict(forall=sp_forall, exists=sp_exists, implies=sp_implies, ite=sp_ite, old=sp_old,
+def sp_psum(eng, node, st):
+    """psum(xs, n): sum of the first n elements of an integer list"""
+    from . import models
+    xs = eng.ev(node.args[0], st)
+    n = to_int(eng.ev(node.args[1], st))
+    if not (isinstance(xs.k, tuple) and xs.k[0] == 'list' and xs.k[1] == 'int'):
+        raise ContractError("psum() needs a list of int")
+    a = eng.list_arr(st, xs)
+    return vint(models.psum(eng, st, a, eng.list_len(st, xs))(a, n))
+
+
+SPEC_BUILTINS = dict(psum=sp_psum, forall=sp_forall, exists=sp_exists, implies=sp_implies, ite=sp_ite, old=sp_old,
                      fresh=sp_fresh, same=sp_same, unchanged=sp_unchanged, isnone=sp_isnone, real=sp_real,
                      eqcontent=sp_eqcontent, let=sp_let, alloc_now=sp_alloc)
 
